@@ -236,8 +236,10 @@ def r_C25(root):
     # unqualified lookup evaluated (sa/pyeval.py) on a sample metamodel: the current namespace wins over imports, imports are searched in list order
     cur = {"A": "cur.A"}; imp1 = {"A": "imp1.A", "B": "imp1.B"}; imp2 = {"B": "imp2.B", "C": "imp2.C"}
     def lookup(name):
-        env = {gi.args.args[1].arg: name, "self._current_namespace": cur, "self._namespace_stack": ["cur"], "self._imported_namespaces": {"cur": [imp1, imp2]},
-               "self.namespaces": {"cur": cur, "imp1": imp1, "imp2": imp2}, "self.referenced_languages": {}}
+        self_ = {".kind": "metamodel", "._namespace_stack": ["cur"], "._imported_namespaces": {"cur": [imp1, imp2]}, ".namespaces": {"cur": cur, "imp1": imp1, "imp2": imp2}, ".referenced_languages": {}, ".debug": False}
+        fns_ = {k_: v_ for k_, v_ in helper_functions(root, rel, "TextXMetaModel.__getitem__").items() if k_ != "__getitem__"}
+        env = {gi.args.args[1].arg: name, gi.args.args[0].arg: self_, "__functions__": fns_}
+        if not any(k_ == "_current_namespace" for k_ in fns_): env["self._current_namespace"] = cur
         try: return pyeval.run_block(gi.body, env)
         except pyeval.Raised as r: return "raise " + r.cls
     try: got = [lookup("A"), lookup("B"), lookup("C"), lookup("D"), lookup("imp2.B")]
@@ -262,7 +264,8 @@ def r_C25(root):
     if not reg or any(c.func.attr != "append" for c in reg): out.append(Finding("C25", "C25.c", rel, "TextXMetaModel._new_import", ast.unparse(reg[0]) if reg else "", "imported namespace is not appended in import order"))
     fq = find_i(root, rel, "TextXMetaModel._cls_fqn"); inst += 1
     def fqn(ns):
-        env = {"self._namespace_stack": ["x", ns], fq.args.args[1].arg: {".__name__": "Cls"}}
+        self_ = {".kind": "metamodel", "._namespace_stack": ["x", ns], ".namespaces": {"x": {}, ns: {}}, "._imported_namespaces": {}, ".debug": False}
+        env = {fq.args.args[0].arg: self_, fq.args.args[1].arg: {".__name__": "Cls"}, "__functions__": {k_: v_ for k_, v_ in helper_functions(root, rel, "TextXMetaModel._cls_fqn").items() if k_ != "_cls_fqn"}}
         return pyeval.run_block(fq.body, env)
     try: gotq = [fqn("pkg.mod"), fqn("__base__"), fqn(None), fqn("base"), fqn("a"), fqn("_"), fqn("__base__x")]
     except pyeval.Unsupported as e: raise AnalysisError("TextXMetaModel._cls_fqn: %s" % e)
